@@ -19,15 +19,16 @@ import (
 )
 
 type c20Case struct {
-	Kind   string // client-stream | server-stream | bidi
-	Dir    string // c2s (client sends, handler receives) | s2c
-	N      int    // attempted sends
-	Size   int    // payload size
-	Header bool   // s2c: the handler sends headers first (a pending header frame)
-	UseHdr bool   // s2c: the client's first consuming call is Header() instead of RecvMsg
-	Recvs  []int  // after the k-th quiescent point the receiver performs Recvs[k] receives (0 = stays idle)
-	Ending string // peer-finish | cancel
-	Heap   bool   // also bound the live heap of the stalled stream
+	Kind    string // client-stream | server-stream | bidi
+	Dir     string // c2s (client sends, handler receives) | s2c
+	N       int    // attempted sends
+	Size    int    // payload size
+	Header  bool   // s2c: the handler sends headers first (a pending header frame)
+	UseHdr  bool   // s2c: the client's first consuming call is Header() instead of RecvMsg
+	Recvs   []int  // after the k-th quiescent point the receiver performs Recvs[k] receives (0 = stays idle)
+	Ending  string // peer-finish | cancel
+	Heap    bool   // also bound the live heap of the stalled stream
+	Pending string `json:",omitempty"` // c2s on bidi: before stalling, the handler sends "header" or "message" which the client never reads
 }
 
 type c20Obs struct {
@@ -63,6 +64,9 @@ func propC20(c c20Case) *Outcome {
 	o := &Outcome{}
 	o.class("kind=%s/dir=%s/ending=%s", c.Kind, c.Dir, c.Ending)
 	o.class("size=%s", bucket(c.Size, 64, 4096, 1<<18, 1<<20))
+	if c.Pending != "" {
+		o.class("unread-%s-in-the-other-direction", c.Pending)
+	}
 	idleOnce := false
 	for _, k := range c.Recvs {
 		if k == 0 {
@@ -83,6 +87,7 @@ func propC20(c c20Case) *Outcome {
 	senderExited := make(chan struct{})
 	recvToken := make(chan chan error) // c2s: tells the handler to perform one RecvMsg
 	hReturn := make(chan struct{})     // c2s: tells the handler to return
+	hStarted := make(chan struct{})    // c2s: the handler has done its preliminary send
 	var hctxDone atomic.Bool
 
 	sendLoop := func(send func(*pb.Message) error) {
@@ -117,6 +122,13 @@ func propC20(c c20Case) *Outcome {
 			return nil
 		}
 		// the handler is the receiver, driven by tokens
+		switch c.Pending {
+		case "header":
+			stream.SendHeader(metadata.Pairs("zz-h", "1"))
+		case "message":
+			stream.SendMsg(&pb.Message{Count: -1})
+		}
+		close(hStarted)
 		for {
 			select {
 			case reply := <-recvToken:
@@ -180,6 +192,13 @@ func propC20(c c20Case) *Outcome {
 		}
 	}
 	if c.Dir == "c2s" {
+		if c.Pending != "" {
+			select {
+			case <-hStarted:
+			case <-time.After(stallBound):
+				return o.failf("handler did not start")
+			}
+		}
 		go sendLoop(func(m *pb.Message) error { return cs.SendMsg(m) })
 	} else if !clientStreaming(c.Kind) {
 		cs.SendMsg(&pb.Message{})
@@ -277,6 +296,9 @@ func genC20(t *rapid.T) c20Case {
 		c.Recvs = append(c.Recvs, rapid.SampledFrom([]int{0, 0, 1, 1, 2, 3}).Draw(t, "recvs"))
 	}
 	c.Ending = rapid.SampledFrom([]string{"peer-finish", "cancel"}).Draw(t, "ending")
+	if c.Dir == "c2s" && c.Kind == kBidi {
+		c.Pending = rapid.SampledFrom([]string{"", "", "header", "message"}).Draw(t, "pending")
+	}
 	if thorough() && rapid.IntRange(0, 9).Draw(t, "heap") == 0 {
 		c.Heap, c.Size, c.N = true, 1<<20, 48
 	}
